@@ -366,20 +366,42 @@ def files_written_are_never_read(repo, tier, seed):
 
 
 def first_thing_a_run_does(repo, tier, seed):
-    """run_and_analyze_scenario creates its own Parameters / Interpreter objects and calls compute_parameters_first_round
-    before anything that could read the shared settings."""
-    src = open(os.path.join(repo, RS)).read()
-    tree = ast.parse(src)
-    fn = [n for c in tree.body if isinstance(c, ast.ClassDef) and c.name == "ScenarioRunner" for n in c.body
-          if isinstance(n, ast.FunctionDef) and n.name == "run_and_analyze_scenario"][0]
-    body = [s for s in fn.body if not (isinstance(s, ast.Expr) and isinstance(s.value, ast.Constant))]
-    texts = [ast.unparse(s) for s in body[:4]]
-    ok = ("interpreter = Interpreter()" in texts[0] and "constants_loader = Parameters()" in " ".join(texts[:3])
-          and any("constants_loader.compute_parameters_first_round(" in t for t in texts[:4]))
+    """run_and_analyze_scenario calls compute_parameters_first_round - on a Parameters object it created itself - before
+    anything that could read the shared settings: every statement before that call only creates the run's own
+    Interpreter / Parameters objects or binds literals (in any order, directly or in a private helper)."""
+    from contracts import astscan
+    tree = ast.parse(open(os.path.join(repo, RS)).read())
+    methods = astscan.class_methods(tree, "ScenarioRunner")
+    body = [s for s in astscan.flat_body(methods, methods["run_and_analyze_scenario"])
+            if not (isinstance(s, ast.Expr) and isinstance(s.value, ast.Constant))]
+    k = next((i for i, s in enumerate(body) if any(isinstance(n, ast.Call) and isinstance(n.func, ast.Attribute)
+                                                    and n.func.attr == "compute_parameters_first_round" for n in ast.walk(s))), None)
+    own, other = set(), []
+
+    def harmless(st):
+        if not isinstance(st, ast.Assign) or len(st.targets) != 1 or not isinstance(st.targets[0], ast.Name):
+            return False
+        v = st.value
+        if isinstance(v, ast.Constant):
+            return True
+        if isinstance(v, ast.Call) and isinstance(v.func, ast.Name) and v.func.id in ("Interpreter", "Parameters") and not v.args and not v.keywords:
+            if v.func.id == "Parameters":
+                own.add(st.targets[0].id)
+            return True
+        return False
+
+    if k is not None:
+        other = [ast.unparse(s)[:80] for s in body[:k] if not harmless(s)]
+        call = next(n for n in ast.walk(body[k]) if isinstance(n, ast.Call) and isinstance(n.func, ast.Attribute)
+                    and n.func.attr == "compute_parameters_first_round")
+        on_own = isinstance(call.func.value, ast.Name) and call.func.value.id in own
+    ok = k is not None and not other and on_own
+    detail = "no call to compute_parameters_first_round at the top level" if k is None else \
+        f"statements before it that are not object creation / literals: {other}; called on its own Parameters object: {on_own}"
     return [{"name": "C14/order/run_creates_its_own_objects_and_computes_parameters_first", "kind": "structural",
-             "status": "discharged" if ok else "failed", "backend": "ast", "seconds": 0, "detail": " | ".join(t[:80] for t in texts),
-             "goal": "first statements: Interpreter(), Parameters(), compute_parameters_first_round(...)",
-             "replay_verdict": None if ok else "violation", "replay": None if ok else {"verdict": "violates-natively", "detail": texts}}]
+             "status": "discharged" if ok else "failed", "backend": "ast", "seconds": 0, "detail": detail,
+             "goal": "only Interpreter() / Parameters() / literals before compute_parameters_first_round(...) on the run's own Parameters",
+             "replay_verdict": None if ok else "violation", "replay": None if ok else {"verdict": "violates-natively", "detail": detail}}]
 
 
 from contracts import C13 as _c13
